@@ -183,6 +183,48 @@ Example C02_nonvacuous :
   lk_count c02_t = 4 /\ lk_count_unique c02_t = 3.
 Proof. vm_compute. repeat split. Qed.
 
+(* ====================================================================================== *)
+(* The same exactness, stated over the dictionaries and pointers of the heap model
+   (theories/Mut/Heap.v: _node_by_id = hreg, _nodes_by_data_id = hidx, the objects' _children /
+   data_id), through the refinement proved for every operation (C01_heap_refinement). *)
+From NT Require Import Heap HeapProofs HeapRefine HeapFull HeapRefusal.
+
+(* _node_by_id holds exactly the nodes reachable from the root through the _children pointers, each once *)
+Theorem C02_heap_registry_exact : forall h t, WF t -> Rep h t ->
+  exists f, abs_forest h = Some f /\ NoDup (hreg h) /\
+    (forall n, In n (hreg h) <-> In n (ids f)) /\ length (hreg h) = length (ids f).
+Proof. exact heap_registry_exact. Qed.
+Print Assumptions C02_heap_registry_exact.
+
+(* find_all(data_id=d) read from the heap's index: exactly the registered nodes whose object carries d *)
+Theorem C02_heap_index_exact : forall h t, WF t -> Rep h t -> forall d n,
+  In n (idx_get d (hidx h)) <-> In n (hreg h) /\ hdid h n = d.
+Proof. exact heap_index_exact. Qed.
+Print Assumptions C02_heap_index_exact.
+
+Theorem C02_heap_index_shape : forall h t, WF t -> Rep h t ->
+  NoDup (map fst (hidx h)) /\ Forall (fun e => snd e <> []) (hidx h) /\
+  forall d, idx_has d (hidx h) = true <-> exists n, In n (hreg h) /\ hdid h n = d.
+Proof. exact heap_index_shape. Qed.
+Print Assumptions C02_heap_index_shape.
+
+(* every heap ANY history of operations produces: its dictionaries are those of a well-formed machine
+   state (so every lk_* above reads the heap's own dictionaries), and they are exact for the pointers *)
+Theorem C02_heap_after_history : forall ops h, In h (htrees (h_run ops h_empty_world)) ->
+  exists t, abs_tstate h = Some t /\ WF t /\ hreg h = reg t /\ hidx h = idx t /\ hcalc h = calc t /\ htyped h = typed t /\
+    (forall d n, In n (idx_get d (hidx h)) <-> In n (hreg h) /\ hdid h n = d) /\
+    (forall n, In n (hreg h) <-> In n (ids (forest_of t))) /\ NoDup (hreg h).
+Proof. exact heap_lookups_reachable. Qed.
+Print Assumptions C02_heap_after_history.
+
+Example C02_heap_nonvacuous :
+  match htrees (h_run c02_ops h_empty_world) with
+  | [h] => hreg h = reg c02_t /\ hidx h = idx c02_t /\ idx_get (DInt 30) (hidx h) = [4; 3] /\
+           hdid h 4 = DInt 30 /\ hdid h 3 = DInt 30 /\ hdid h 5 = DInt 40 /\ abs_tstate h = Some c02_t
+  | _ => False
+  end.
+Proof. vm_compute. repeat split. Qed.
+
 (* ==== PART WRAP: common.DictWrapper, the data flavour whose lookups go by the IDENTITY of a wrapped dict (model
    theories/Forest/MiscWrap.v, correspondence Cases/CaseMiscWrap.v, harness parts_misc.WRAP).  A [world] is the list of
    dict objects (index = identity, value = content) and the list of wrappers (value = identity of the dict in `_dict`);
